@@ -14,9 +14,8 @@ class Parser(object):
     """
     tokens = lexer.tokens
     precedence = (
-        ('left', 'EQUAL'),
-        ('left', 'LESSEQ', 'GREATEREQ', 'NOTEQUAL'),
-        ('left', 'GREATER', 'LESS'),
+        # the comparison operators are one level: 3>=2>1 is (3>=2)>1
+        ('left', 'EQUAL', 'LESSEQ', 'GREATEREQ', 'NOTEQUAL', 'GREATER', 'LESS'),
         ('left', 'AMP'),  # 1+2&3 is "33": & joins what the arithmetic operators have computed
         ('left', 'PLUS', 'MINUS'),
         ('left', 'MULT', 'DIV'),
